@@ -445,52 +445,129 @@ Proof.
   - specialize (IH _ _ _ _ _ H2 Hn). rewrite nth_tl, nth_error_tl in IH. exact IH.
 Qed.
 
-Lemma bulk_loop_TInv src : forall t seen_pk seen_uq cnt ins t' res ins',
-  TInv t ->
-  unenforced_check_hit (t_sch t) src = false ->
-  bulk_loop t seen_pk seen_uq src cnt ins = (t', res, ins') -> TInv t' /\ t_sch t' = t_sch t.
+Lemma bulk_seen_uq_push_length uniqs : forall seen r,
+  length seen = length uniqs -> length (bulk_seen_uq_push uniqs seen r) = length uniqs.
 Proof.
-  induction src as [|r src IH]; intros t seen_pk seen_uq cnt ins t' res ins' HI Hchk Hl.
-  - cbn in Hl. inversion Hl; subst; auto.
-  - cbn [bulk_loop] in Hl.
-    destruct (negb (bulk_pk_ok t seen_pk r)) eqn:Epk; [inversion Hl; subst; auto|].
-    destruct (negb (bulk_unique_ok (s_uniqs (t_sch t)) seen_uq (t_uqidx t) r)) eqn:Euq; [inversion Hl; subst; auto|].
-    destruct (negb (checks_ok (s_checks_enf (t_sch t)) r)) eqn:Eck; [inversion Hl; subst; auto|].
-    destruct (db_insert_row t r) as [t1 ok] eqn:Ei.
-    destruct ok; [|apply db_insert_row_fail in Ei; inversion Hl; subst; auto].
-    apply negb_false_iff in Epk, Euq, Eck.
-    cbn [unenforced_check_hit existsb] in Hchk. unfold unenforced_check_hit in Hchk.
-    cbn [existsb] in Hchk. apply orb_false_iff in Hchk. destruct Hchk as [Hc1 Hc2].
-    rewrite Eck in Hc1. cbn in Hc1. apply negb_false_iff in Hc1.
-    pose proof HI as [Hwf [[Hnn [Hpk [Huq [Hck Hui]]]] [[Hhp Hhu] Hu]]].
-    rewrite db_insert_row_as_batch in Ei.
-    assert (HT : TInv t1 /\ t_sch t1 = t_sch t /\ t_rows t1 = t_rows t ++ [r]).
-    { apply (db_insert_batch_TInv t [r] t1 HI); [| | | |exact Ei].
-      - intros cols Ec. unfold pk_rebuild in Hhp. rewrite Ec in Hhp.
-        destruct (t_pkidx t) as [m|] eqn:Em; cbn in Hhp; [|contradiction].
-        eapply fresh_NoDup; [exact Hhp | apply Hpk; exact Ec | apply NoDup_somes_short; cbn; lia |].
-        cbn. intros k [<-|[]]. unfold bulk_pk_ok in Epk. rewrite Ec in Epk. rewrite ?Em in Epk.
-        destruct (key_mem (proj cols r) seen_pk); [discriminate|].
-        apply negb_true_iff in Epk; exact Epk.
-      - apply Forall_forall. intros cols Hin. destruct (In_nth_error _ _ Hin) as [j Hj].
-        unfold uq_rebuild in Hhu.
-        assert (Hj' : nth_error (map (fun cols => h_rebuild (uq_kf cols) (t_rows t)) (s_uniqs (t_sch t))) j
-                      = Some (h_rebuild (uq_kf cols) (t_rows t)))
-          by (exact (map_nth_error (fun c => h_rebuild (uq_kf c) (t_rows t)) j _ Hj)).
-        destruct (Forall2_nth_error_r _ _ _ _ _ Hhu Hj') as [m [Em He]].
-        rewrite Forall_forall in Huq.
-        eapply fresh_NoDup; [exact He | apply Huq; exact Hin | apply NoDup_somes_short; cbn; lia |].
-        cbn. unfold uq_kf. destruct (has_null (proj cols r)) eqn:En; cbn; [intros k []|].
-        intros k [<-|[]].
-        destruct (bulk_unique_ok_nth _ _ _ _ _ _ Euq Hj) as [Hn|Hd]; [congruence|].
-        rewrite Em in Hd. apply dup_in_false in Hd. apply Hd.
-      - apply Forall_forall. intros u _ _. apply NoDup_somes_short. cbn; lia.
-      - constructor; [exact Hc1 | constructor]. }
-    destruct HT as [HT1 [HT2 _]].
-    assert (Hc2' : unenforced_check_hit (t_sch t1) src = false) by (rewrite HT2; exact Hc2).
-    destruct (IH _ _ _ _ _ _ _ _ HT1 Hc2' Hl) as [H1 H2].
-    split; [exact H1 | congruence].
+  intros seen r H. unfold bulk_seen_uq_push. rewrite map_length, combine_length. lia.
 Qed.
+
+Lemma bulk_seen_uq_push_nth uniqs : forall seen r j cols,
+  length seen = length uniqs -> nth_error uniqs j = Some cols ->
+  nth j (bulk_seen_uq_push uniqs seen r) [] = nth j seen [] ++ [proj cols r].
+Proof.
+  induction uniqs as [|c uniqs IH]; intros seen r j cols Hl Hj; [destruct j; discriminate|].
+  destruct seen as [|l seen]; [discriminate|]. destruct j as [|j]; cbn in *.
+  - inversion Hj; subst. reflexivity.
+  - apply IH; [lia | exact Hj].
+Qed.
+
+(** what a successful phase A establishes for the PRIMARY KEY ... *)
+Lemma bulk_all_pk t cols m :
+  s_pk (t_sch t) = Some cols -> t_pkidx t = Some m ->
+  forall src seen_pk seen_uq,
+  bulk_validate t seen_pk seen_uq src = true ->
+  NoDup seen_pk -> (forall k, In k seen_pk -> am_mem k m = false) ->
+  NoDup (seen_pk ++ somes (pk_kf cols) src) /\ (forall k, In k (somes (pk_kf cols) src) -> am_mem k m = false).
+Proof.
+  intros Hpk Hidx. induction src as [|r src IH]; intros seen_pk seen_uq Hv Hnd Hm.
+  - cbn. rewrite app_nil_r. split; [exact Hnd | intros k []].
+  - cbn [bulk_validate] in Hv. rewrite Hpk in Hv.
+    apply andb_true_iff in Hv. destruct Hv as [Hv Hrest].
+    apply andb_true_iff in Hv. destruct Hv as [Hv _].
+    apply andb_true_iff in Hv. destruct Hv as [Hok _].
+    unfold bulk_pk_ok in Hok. rewrite Hpk, Hidx in Hok.
+    destruct (key_mem (proj cols r) seen_pk) eqn:Ek; [discriminate|]. apply negb_true_iff in Hok.
+    assert (Hnb : ~ In (proj cols r) seen_pk) by (intros Hin; apply key_mem_In in Hin; congruence).
+    destruct (IH _ _ Hrest) as [IH1 IH2].
+    + apply NoDup_app_iff. repeat split; [exact Hnd | constructor; [intros [] | constructor] |].
+      intros x Hx [<-|[]]. contradiction.
+    + intros k Hk. apply in_app_or in Hk. destruct Hk as [Hk|[<-|[]]]; [apply Hm; exact Hk | exact Hok].
+    + cbn [somes flat_map pk_kf]. fold (somes (pk_kf cols) src). cbn [app].
+      rewrite <- app_assoc in IH1. split; [exact IH1|].
+      intros k [<-|Hk]; [exact Hok | apply IH2; exact Hk].
+Qed.
+
+Definition nn_keys (l : list key) : list key := filter (fun k => negb (has_null k)) l.
+
+Lemma nn_keys_app a b : nn_keys (a ++ b) = nn_keys a ++ nn_keys b.
+Proof. unfold nn_keys. apply filter_app. Qed.
+
+(** ... and for the j-th UNIQUE constraint (the seen list also collects the NULL-containing keys,
+    which never count) *)
+Lemma bulk_all_uq t j cols m :
+  nth_error (s_uniqs (t_sch t)) j = Some cols -> nth_error (t_uqidx t) j = Some m ->
+  forall src seen_pk seen_uq, length seen_uq = length (s_uniqs (t_sch t)) ->
+  bulk_validate t seen_pk seen_uq src = true ->
+  NoDup (nn_keys (nth j seen_uq [])) -> (forall k, In k (nn_keys (nth j seen_uq [])) -> am_mem k m = false) ->
+  NoDup (nn_keys (nth j seen_uq []) ++ somes (uq_kf cols) src)
+  /\ (forall k, In k (somes (uq_kf cols) src) -> am_mem k m = false).
+Proof.
+  intros Hc Hidx. induction src as [|r src IH]; intros seen_pk seen_uq Hlen Hv Hnd Hm.
+  - cbn. rewrite app_nil_r. split; [exact Hnd | intros k []].
+  - cbn [bulk_validate] in Hv.
+    apply andb_true_iff in Hv. destruct Hv as [Hv Hrest].
+    apply andb_true_iff in Hv. destruct Hv as [Hv _].
+    apply andb_true_iff in Hv. destruct Hv as [_ Huq].
+    specialize (IH _ (bulk_seen_uq_push (s_uniqs (t_sch t)) seen_uq r)
+                   (bulk_seen_uq_push_length _ _ _ Hlen) Hrest).
+    rewrite (bulk_seen_uq_push_nth _ _ _ _ _ Hlen Hc) in IH. rewrite nn_keys_app in IH.
+    cbn [somes flat_map]. fold (somes (uq_kf cols) src). unfold uq_kf at 1 3.
+    cbn [nn_keys filter] in IH.
+    destruct (has_null (proj cols r)) eqn:En; cbn [negb app] in *.
+    + rewrite app_nil_r in IH. apply IH; assumption.
+    + destruct (bulk_unique_ok_nth _ _ _ _ _ _ Huq Hc) as [Hn|Hd]; [congruence|].
+      rewrite Hidx in Hd. apply dup_in_false in Hd. destruct Hd as [Hnb Hnm].
+      destruct IH as [IH1 IH2].
+      * apply NoDup_app_iff. repeat split; [exact Hnd | constructor; [intros [] | constructor] |].
+        intros x Hx [<-|[]]. apply Hnb. unfold nn_keys in Hx. apply filter_In in Hx. apply Hx.
+      * intros k Hk. apply in_app_or in Hk. destruct Hk as [Hk|[<-|[]]]; [apply Hm; exact Hk | exact Hnm].
+      * rewrite <- app_assoc in IH1. split; [exact IH1|].
+        intros k [<-|Hk]; [exact Hnm | apply IH2; exact Hk].
+Qed.
+
+Lemma bulk_all_checks t : forall src seen_pk seen_uq,
+  bulk_validate t seen_pk seen_uq src = true ->
+  Forall (fun r => checks_ok (s_checks_enf (t_sch t)) r = true) src.
+Proof.
+  induction src as [|r src IH]; intros seen_pk seen_uq Hv; [constructor|].
+  cbn [bulk_validate] in Hv.
+  apply andb_true_iff in Hv. destruct Hv as [Hv Hrest].
+  apply andb_true_iff in Hv. destruct Hv as [_ Hc].
+  constructor; [exact Hc | eapply IH; exact Hrest].
+Qed.
+
+(** phase B: inserting rows whose keys are new, one Database::insert_row at a time *)
+Lemma bulk_insert_TInv src : forall t cnt ins t' res ins',
+  TInv t ->
+  (forall cols, s_pk (t_sch t) = Some cols -> NoDup (somes (pk_kf cols) (t_rows t ++ src))) ->
+  Forall (fun cols => NoDup (somes (uq_kf cols) (t_rows t ++ src))) (s_uniqs (t_sch t)) ->
+  Forall (fun r => checks_ok (s_checks_decl (t_sch t)) r = true) src ->
+  bulk_insert t src cnt ins = (t', res, ins') -> TInv t' /\ t_sch t' = t_sch t.
+Proof.
+  induction src as [|r src IH]; intros t cnt ins t' res ins' HI Npk Nuq Nck Hl; cbn [bulk_insert] in Hl.
+  - inversion Hl; subst; auto.
+  - destruct (db_insert_row t r) as [t1 ok] eqn:Ei.
+    destruct ok; [|apply db_insert_row_fail in Ei; inversion Hl; subst; auto].
+    rewrite db_insert_row_as_batch in Ei. inversion Nck; subst.
+    assert (Hsplit : forall kf, NoDup (somes kf (t_rows t ++ r :: src)) -> NoDup (somes kf (t_rows t ++ [r]))).
+    { intros kf Hn. replace (t_rows t ++ r :: src) with ((t_rows t ++ [r]) ++ src) in Hn
+        by (rewrite <- app_assoc; reflexivity).
+      rewrite somes_app in Hn. apply NoDup_app_iff in Hn. apply Hn. }
+    destruct (db_insert_batch_TInv t [r] t1 HI) as [HT1 [HT2 HT3]]; [| | | |exact Ei|].
+    + intros cols Ec. apply Hsplit. apply Npk; exact Ec.
+    + rewrite Forall_forall in *. intros cols Hc. apply Hsplit. apply Nuq; exact Hc.
+    + apply Forall_forall. intros u _ _. apply NoDup_somes_short. cbn; lia.
+    + constructor; [assumption | constructor].
+    + assert (A1 : forall cols, s_pk (t_sch t1) = Some cols -> NoDup (somes (pk_kf cols) (t_rows t1 ++ src))).
+      { intros cols Ec. rewrite HT2 in Ec. rewrite HT3, <- app_assoc. apply Npk; exact Ec. }
+      assert (A2 : Forall (fun cols => NoDup (somes (uq_kf cols) (t_rows t1 ++ src))) (s_uniqs (t_sch t1))).
+      { rewrite HT2, HT3. rewrite Forall_forall in *. intros cols Hc. rewrite <- app_assoc. apply Nuq; exact Hc. }
+      assert (A3 : Forall (fun r => checks_ok (s_checks_decl (t_sch t1)) r = true) src) by (rewrite HT2; assumption).
+      destruct (IH t1 _ _ _ _ _ HT1 A1 A2 A3 Hl) as [R1 R2]. split; [exact R1 | congruence].
+Qed.
+
+Lemma nth_map_nil {A B} (l : list A) j : nth j (map (fun _ => @nil B) l) [] = [].
+Proof. revert j; induction l; intros [|j]; cbn; auto. Qed.
 
 Lemma do_insert_select_TInv dst same src_sch src_rows sel t' res ins :
   TInv dst -> kc_insert_select dst same src_sch src_rows sel = false ->
@@ -498,7 +575,29 @@ Lemma do_insert_select_TInv dst same src_sch src_rows sel t' res ins :
 Proof.
   intros HI Hk Hd. unfold do_insert_select in Hd. unfold kc_insert_select in Hk.
   destruct (negb same && bulk_compatible (t_sch dst) src_sch).
-  - eapply bulk_loop_TInv; eauto.
+  - destruct (bulk_validate dst [] (map (fun _ => []) (s_uniqs (t_sch dst))) src_rows) eqn:Ev;
+      [|inversion Hd; subst; auto].
+    pose proof HI as [Hwf [[Hnn [Hpk [Huq [Hck Hui]]]] [[Hhp Hhu] Hu]]].
+    eapply bulk_insert_TInv; [exact HI | | | | exact Hd].
+    + intros cols Ec. unfold pk_rebuild in Hhp. rewrite Ec in Hhp.
+      destruct (t_pkidx dst) as [m|] eqn:Em; cbn in Hhp; [|contradiction].
+      destruct (bulk_all_pk dst cols m Ec Em src_rows [] _ Ev) as [N1 N2]; [constructor | intros k [] |].
+      cbn in N1. eapply fresh_NoDup; eauto.
+    + apply Forall_forall. intros cols Hin. destruct (In_nth_error _ _ Hin) as [j Hj].
+      unfold uq_rebuild in Hhu.
+      assert (Hj' : nth_error (map (fun cols => h_rebuild (uq_kf cols) (t_rows dst)) (s_uniqs (t_sch dst))) j
+                    = Some (h_rebuild (uq_kf cols) (t_rows dst)))
+        by (exact (map_nth_error (fun c => h_rebuild (uq_kf c) (t_rows dst)) j _ Hj)).
+      destruct (Forall2_nth_error_r _ _ _ _ _ Hhu Hj') as [m [Em He]].
+      destruct (bulk_all_uq dst j cols m Hj Em src_rows [] (map (fun _ => []) (s_uniqs (t_sch dst)))) as [N1 N2].
+      * apply map_length.
+      * exact Ev.
+      * rewrite nth_map_nil. constructor.
+      * rewrite nth_map_nil. intros k [].
+      * rewrite nth_map_nil in N1. cbn in N1. rewrite Forall_forall in Huq. eapply fresh_NoDup; eauto.
+    + pose proof (bulk_all_checks dst src_rows _ _ Ev) as He. unfold unenforced_check_hit in Hk.
+      rewrite existsb_exists_false in Hk. rewrite Forall_forall in *. intros r Hr.
+      specialize (Hk r Hr). rewrite (He r Hr) in Hk. cbn in Hk. apply negb_false_iff in Hk. exact Hk.
   - destruct (negb (s_ncols src_sch =? s_ncols (t_sch dst))); [inversion Hd; subst; auto|].
     eapply do_insert_values_TInv; eauto.
 Qed.
